@@ -16,7 +16,6 @@ import (
 	"errors"
 	"fmt"
 	"os"
-	"os/exec"
 	"path/filepath"
 	"strings"
 	"sync"
@@ -77,6 +76,8 @@ type c19FsObs struct {
 
 func TestVerifC19FS(t *testing.T) {
 	t.Setenv("C19_X", "from-env")
+
+	defer c19gen.Watchdog(t, "fs", 100*time.Second)()
 
 	w := vf.NewWriter()
 	defer w.Close()
@@ -510,13 +511,8 @@ func c19FSLoop(t *testing.T, w *vf.Writer) {
 	}
 
 	raw, _ := json.Marshal(steps)
-	cctx, cancel := context.WithTimeout(context.Background(), 3*time.Minute)
-	defer cancel()
-
-	cmd := exec.CommandContext(cctx, os.Args[0], "-test.run", "^TestVerifC19FSLoopChild$", "-test.v")
-	cmd.Env = append(os.Environ(), "C19_FSLOOP_CASE="+string(raw), "VERIF_OUT=/dev/null", "C19_X=from-env")
-	outb, err := cmd.CombinedOutput()
-	text := string(outb)
+	// 9 steps, each waits at most 20 s for an effect and stops the run when there is none
+	text, err := c19gen.RunChild(t, "TestVerifC19FSLoopChild", 45*time.Second, "C19_FSLOOP_CASE="+string(raw), "C19_X=from-env")
 
 	var res []c19LoopObs
 
